@@ -33,7 +33,7 @@
   [[]
    [(P "m.txt")] [(P "n1")] [(P "ml")] [(P "md")] [(P "md2")] [(P "m.janet")]
    [(P "m.txt") (P "n2")] [(P "m.txt") (P "n2") true]
-   [(P "m.txt") :r] [(P "n3") :w] [(P "n4") :wc] [(P "m.txt") :a] [(P "m.txt") :e] [(P "m.txt") "data"] [(P "n5") "data"]
+   [(P "m.txt") :r] [(P "n3") :w] [(P "n4") :wc] [(P "m.txt") :a] [(P "m.txt") :a+] [(P "m.txt") :r+] [(P "n3") :w+] [(P "m.txt") :e] [(P "m.txt") "data"] [(P "n5") "data"]
    [(P "m.txt") 8r644] [(P "m.txt") :rw 8r644]
    ["127.0.0.1" "1"] ["127.0.0.1" "0"] ["127.0.0.1" "1" :datagram] ["127.0.0.1" "0" :datagram] ["localhost" "1"]
    [["true"]] [["true"] :p] [["true"] :pe {"C18_MARKER_VAR" "1"}] ["true"]
@@ -91,7 +91,9 @@
           (++ ncalls)
           (c18/restore))
         (++ id))))
-  (c18/mark 1000000 (string "END " ncalls " calls flags=" (c18/flags))))
+  (c18/mark 1000000 (string "END " ncalls " calls flags=" (c18/flags)))
+  # leave at once: cancelled tasks, listening sockets and watchers created by the calls above would keep the loop alive
+  (os/exit 0 true))
 
 # one task (a top-level form that suspends would let the following forms run early)
 (ev/go (fn []
